@@ -15,7 +15,8 @@ EXPLANATION = ("R06.1 open-flag table of the log-file open: write, create, appen
                "at start, constant true at rotation; R06.6 = R01.5/R01.3 (index advances iff renamed, rename before create); R06.7 each naming lists "
                "with its own infix predicate. R06.8 the listing that start index, restart numbers and the latest file are taken from recognises exactly the family (shared with R14.2). R06.2 also: the number is cut behind the LAST `_r` of the stem; R06.3 also: at start the current file is looked for under rCURRENT (Timestamps) resp. the CONFIGURED current infix (TimestampsCustomFormat)."
                " R06.3 also: every helper that names or parses a file at start is given the InfixFormat stored in the naming state. R06.1 also: the path handed back by open_log_file (stored in the active state) is the very path that was opened. R06.9 (shared with R07.2): the original of a compressed file is removed only after its .gz was completely written in the same step, and the encoder's sink cannot swallow a failing write."
-               " R06.10 append wiring: append()/o_append() on Logger and FileLogWriterBuilder reach config.append unchanged (setter tables, Logger mirrors the builder, try_build_state copies the field) (shared configuration-wiring tables, rules/cfgwiring.py).")
+               " R06.10 append wiring: append()/o_append() on Logger and FileLogWriterBuilder reach config.append unchanged (setter tables, Logger mirrors the builder, try_build_state copies the field) (shared configuration-wiring tables, rules/cfgwiring.py)."
+               " R06.11 (shared with R16.7): on every row of the builder create_dir_all(spec directory) succeeded and is_dir held before State::new - the error-tolerant start-up listing therefore sees what earlier runs left.")
 ASSUMPTIONS = ["OpenOptions flag semantics (std)", "lexicographic maximum of the .restart siblings is the highest number (4 digits)"]
 NOT_DECIDED = ["preservation of contents over arbitrary run sequences and directory states", "same-second behaviour beyond the collision test", "cleanup interplay (C07)"]
 FLOORS = {'R06.1': 1, 'R06.3': 6, 'R06.4': 8, 'R06.5': 2}
@@ -47,6 +48,11 @@ def run(R, ctx):
     c01.index_table(_As(R, 'R06.6'), ctx)
     c01.order_rules(_As(R, 'R06.6'), ctx)
     listing_predicates(R, ctx)
+    # every start decides from a LISTING of the log directory what earlier runs left behind; the listing tolerates read_dir errors (empty result), so the
+    # directory must have been created and verified before the state is built - on every row of the builder (shared with R16.7)
+    R.rule('R06.11', 'the log directory is created and verified before any state is built: the start-up listing can see the earlier runs (shared with R16.7)')
+    import c16 as _c16
+    _c16.directory(Relabel(R, {'R16.7': 'R06.11'}), ctx)
     timestamp_parse_total(R, ctx, rule='R06.7')
     family_predicate_proxy(R, ctx, 'R06.8', 'the listing that start index, restart numbers and the latest file are taken from recognises exactly the family (shared with R14.2)')
 
